@@ -201,6 +201,19 @@ theorem vars_are_bound_segments {r : Router} {tbl : Table} (hrep : Rep r tbl) (h
   rw [List.map_reverse]
   exact nodup_reverse' _ (binds_keys_nodup hd _)
 
+/-- without the distinctness assumption: `pathvar.Vars` holds, for every name, the *first* segment the
+chosen pattern binds to that name (a later `addParam` — an earlier segment — overwrites).  So a pattern
+that repeats a name (`/:x/:x`) silently loses the later segments. -/
+theorem vars_first_binding_wins {r : Router} {tbl : Table} (hrep : Rep r tbl) (hok : TblOK tbl)
+    {m p : String} {h : H} {ps : Params} (hs : serve r m p = .handler h ps) :
+    ∃ route ∈ admissible tbl m (cleanToks p), route.h = h ∧
+      ∀ name, (paramMap ps).lookup name = (binds route.pats (cleanToks p)).lookup name := by
+  obtain ⟨route, hadm, hh, hps⟩ := chosen_is_admissible hrep hok hs
+  refine ⟨route, hadm, hh, fun name => ?_⟩
+  rw [paramMap_lookup, hps, List.reverse_reverse]
+
+example : paramMap ((binds [":x", "a", ":x"] ["p", "a", "q"]).reverse) = [("x", "p")] := by decide
+
 /-! ### 405 / 404 (any iteration order) -/
 
 /-- **405 with exactly the other methods that match.** -/
@@ -410,6 +423,18 @@ example : serve (runHandle {} exRegs) "GET" "/" = .handler 3 [] := by decide
 example : serve (runHandle {} exRegs) "PUT" "/a/b/c" = .notAllowed ["GET", "POST"] := by decide
 example : serve (runHandle {} exRegs) "POST" "/a/q/c" = .notAllowed ["GET"] := by decide
 example : serve (runHandle {} exRegs) "GET" "/a/b" = .notFound := by decide
+-- the hypotheses of the theorems above are met by this table …
+example : Rep (runHandle {} exRegs) (runRegister [] exRegs) ∧ TblOK (runRegister [] exRegs) :=
+  router_represents_table exRegs
+example : Agrees (cleanToks "/a/b/../q//c/") (serve (runHandle {} exRegs) "GET" "/a/b/../q//c/")
+    (expect (runRegister [] exRegs) "GET" (some (cleanToks "/a/b/../q//c/"))) :=
+  serve_is_declarative_matcher exRegs (by decide) "GET" "/a/b/../q//c/" (by decide)
+example : (candidates (runRegister [] exRegs) "GET" (cleanToks "/a/b/c")).map (·.h) = [1, 2] := by decide
+example : (admissible (runRegister [] exRegs) "GET" (cleanToks "/a/b/c")).map (·.h) = [2] := by decide
+-- … and the table of `excluded_region_order_decides` is outside the hypothesis, with two admissible routes
+example : oneVarPerPosition [⟨"GET", [":x", "a"], 1⟩, ⟨"GET", [":y", ":z"], 2⟩] = false := by decide
+example : (admissible [⟨"GET", [":x", "a"], 1⟩, ⟨"GET", [":y", ":z"], 2⟩] "GET" ["q", "a"]).map (·.h) = [1, 2] := by
+  decide
 example : expect (runRegister [] exRegs) "GET" (some (cleanToks "/a/b/c")) = .handler ⟨"GET", ["a", "b", ":y"], 2⟩ := by
   decide
 
